@@ -125,6 +125,12 @@ func runConn(id string, toks []string) (res string) {
 		ctx.GetSessionForConnection(sc).SetCryptographer(sess)
 		var out []string
 		for _, bs := range strings.Split(toks[3], ",") {
+			if strings.HasPrefix(bs, "w") {
+				// between two reads the accessory writes on the same connection (a response, an event): no effect on reads
+				k, _ := strconv.Atoi(bs[1:])
+				con.Write(make([]byte, k))
+				continue
+			}
 			n, _ := strconv.Atoi(bs)
 			buf := make([]byte, n)
 			m, err := con.Read(buf)
